@@ -291,8 +291,7 @@ func (fc *FnCtx) havoc(st *State, ts []WTarget) {
 				hv := vc.sc.fresh("hv", arraySort(ri.nidx-1, ri.leaf))
 				vc.typeInv(t.Region, hv, ri.nidx-1)
 				vc.setRegion(st, t.Region, ri.nidx, ri.leaf, app("store", cur, t.Idx[0], hv))
-			case t.Lo != "" && t.ConstLen > 0 && t.ConstLen <= 16 && os.Getenv("VERIF_CONSTLEN_HAVOC") != "":
-				// (experimental, off by default: it did not make the Salamander proofs more stable)
+			case t.Lo != "" && t.ConstLen > 0 && t.ConstLen <= 16 && os.Getenv("VERIF_CONSTLEN_HAVOC") != "off":
 				// a short range of literal length: the new row is the old one with that many
 				// unknown values stored, which needs no quantified frame fact
 				row := app("select", cur, t.Idx[0])
@@ -657,7 +656,8 @@ func (fc *FnCtx) applyCall(ci calleeInfo, in ssa.Instruction, st *State, resT ty
 	fc.runHooks(ci, in, st, "before", nil)
 	if ci.con == nil {
 		var r Val
-		if ci.fn != nil && fc.eng.inlinable(ci.fn) && fc.depth < 3 {
+		_, loopHelper := fc.root().loopHelpers[in]
+		if ci.fn != nil && (fc.eng.inlinable(ci.fn) && fc.depth < 3 || loopHelper && fc == fc.root()) {
 			r = fc.inlineCall(ci, in, st, resT)
 		} else {
 			r = fc.unknownCall(ci, in, st, resT)
@@ -702,6 +702,22 @@ func (fc *FnCtx) applyCall(ci calleeInfo, in ssa.Instruction, st *State, resT ty
 	fc.bindCallResults(env2, ci, res)
 	for _, c := range ci.con.Ensures {
 		fc.assume(fc.evalBool(c.Expr, env2))
+	}
+	// visible-state object invariants: a method under contract re-establishes the invariant
+	// of its receiver (one of its own exit obligations), so the caller may rely on it
+	if ci.con.Kind == "func" && ci.fn != nil && ci.fn.Signature.Recv() != nil && len(ci.args) > 0 {
+		if pt, ok := ci.fn.Signature.Recv().Type().Underlying().(*types.Pointer); ok {
+			if oi := fc.eng.cs.ObjInvs[typeName(pt.Elem())]; oi != nil {
+				save := fc.pkg
+				if p := fc.eng.pkgs[ci.con.PkgPath]; p != nil {
+					fc.pkg = p
+				}
+				for _, c := range oi.Clauses {
+					fc.assume(fc.evalBool(c.Expr, env2))
+				}
+				fc.pkg = save
+			}
+		}
 	}
 	fc.runHooks(ci, in, st, "after", &res)
 	return res
@@ -1041,7 +1057,13 @@ func (fc *FnCtx) appendBuiltin(cc *ssa.CallCommon, in ssa.Instruction, st *State
 		vc.setRegion(st, name, 2, leafSort(lf.kind), app("store", reg, nb, a))
 	}
 	fc.note("append modelled as copy into a fresh backing array (aliasing of spare capacity not modelled)")
-	return Val{K: KSlice, T: resT, Sl: &SliceV{nb, "0", newLen, newCap}}
+	// appending nothing returns the slice itself - in particular append(nil, empty...) is nil
+	none := vc.sc.define("appnone", "Bool", eq(addLen, "0"))
+	return Val{K: KSlice, T: resT, Sl: &SliceV{
+		vc.sc.define("appb", "Int", ite(none, s.Sl.Base, nb)),
+		vc.sc.define("appo", "Int", ite(none, s.Sl.Off, "0")),
+		newLen,
+		vc.sc.define("appc", "Int", ite(none, s.Sl.Cap, newCap))}}
 }
 
 // appendStructs models append on a slice of structs: the result is a fresh
